@@ -8,6 +8,7 @@
 #include <cstdio>
 #include <cstdlib>
 #include <cstring>
+#include <sstream>
 
 #include "exec.h"
 #include "world.h"
@@ -187,6 +188,128 @@ Outcome runIsolated(const Plan& plan, int timeoutSec)
     size_t cut = std::min<size_t>(err.size(), 1800);
     out.detail = err.substr(0, cut);
     std::replace(out.detail.begin(), out.detail.end(), '\t', ' ');
+    return out;
+}
+
+RunResult runForkedFull(const Plan& plan, int timeoutSec)
+{
+    RunResult out;
+    int resPipe[2], errPipe[2];
+    if (pipe(resPipe) || pipe(errPipe))
+    {
+        Violation v;
+        v.prop = plan.prop;
+        v.rule = "harness.pipe-failed";
+        out.viol.push_back(v);
+        return out;
+    }
+    fflush(stdout);
+    fflush(stderr);
+    pid_t pid = fork();
+    if (pid == 0)
+    {
+        close(resPipe[0]);
+        close(errPipe[0]);
+        dup2(errPipe[1], 2);
+        close(errPipe[1]);
+        alarm(static_cast<unsigned>(timeoutSec));
+        RunResult r = execForProp(plan);
+        std::string msg;
+        msg += "H\t" + std::to_string(r.eventHash) + "\t" + std::to_string(r.interleaveHash) + "\t" + std::to_string(r.simTimeUs) + "\t" +
+               std::to_string(r.deliveries) + "\t" + std::to_string(r.apiCalls) + "\n";
+        for (auto& v : r.viol)
+        {
+            std::string d = v.detail;
+            std::replace(d.begin(), d.end(), '\n', ' ');
+            std::replace(d.begin(), d.end(), '\t', ' ');
+            msg += "V\t" + v.rule + "\t" + d + "\n";
+        }
+        for (auto& kv : r.probes)
+            msg += "P\t" + kv.first + "\t" + std::to_string(kv.second) + "\n";
+        for (auto& kv : r.faults)
+            msg += "F\t" + kv.first + "\t" + std::to_string(kv.second) + "\n";
+        for (size_t i = 0; i < r.stateHashes.size() && i < 64; ++i)
+            msg += "S\t" + std::to_string(r.stateHashes[i]) + "\n";
+        size_t off = 0;
+        while (off < msg.size())
+        {
+            ssize_t w = write(resPipe[1], msg.data() + off, msg.size() - off);
+            if (w <= 0)
+                break;
+            off += static_cast<size_t>(w);
+        }
+        _exit(0);
+    }
+    close(resPipe[1]);
+    close(errPipe[1]);
+    std::string res = readAll(resPipe[0]);
+    std::string err = readAll(errPipe[0]);
+    close(resPipe[0]);
+    close(errPipe[0]);
+    int status = 0;
+    waitpid(pid, &status, 0);
+    if (WIFEXITED(status) && WEXITSTATUS(status) == 0 && !res.empty())
+    {
+        std::istringstream is(res);
+        std::string line;
+        while (std::getline(is, line))
+        {
+            std::vector<std::string> f;
+            size_t a = 0;
+            for (;;)
+            {
+                size_t b = line.find('\t', a);
+                f.push_back(line.substr(a, b == std::string::npos ? std::string::npos : b - a));
+                if (b == std::string::npos)
+                    break;
+                a = b + 1;
+            }
+            if (f[0] == "H" && f.size() >= 6)
+            {
+                out.eventHash = std::stoull(f[1]);
+                out.interleaveHash = std::stoull(f[2]);
+                out.simTimeUs = std::stoull(f[3]);
+                out.deliveries = std::stoull(f[4]);
+                out.apiCalls = std::stoull(f[5]);
+            }
+            else if (f[0] == "V" && f.size() >= 3)
+            {
+                Violation v;
+                v.prop = plan.prop;
+                v.rule = f[1];
+                v.detail = f[2];
+                out.viol.push_back(v);
+            }
+            else if (f[0] == "P" && f.size() >= 3)
+                out.probes[f[1]] = std::stoull(f[2]);
+            else if (f[0] == "F" && f.size() >= 3)
+                out.faults[f[1]] = std::stoull(f[2]);
+            else if (f[0] == "S" && f.size() >= 2)
+                out.stateHashes.push_back(std::stoull(f[1]));
+        }
+        return out;
+    }
+    // crashed: same classification as runIsolated
+    Outcome o;
+    {
+        std::string rule;
+        if ((WIFSIGNALED(status) && WTERMSIG(status) == SIGALRM) || (WIFEXITED(status) && WEXITSTATUS(status) == 79))
+            rule = "crash.timeout";
+        else if (WIFEXITED(status) && WEXITSTATUS(status) == 78)
+            rule = "crash.exception";
+        else if (err.find("Sanitizer") != std::string::npos || err.find("runtime error:") != std::string::npos)
+            rule = "crash.sanitizer/" + classifySanitizer(err);
+        else if (WIFSIGNALED(status))
+            rule = "crash.signal/" + std::to_string(WTERMSIG(status));
+        else
+            rule = "crash.exit/" + std::to_string(WIFEXITED(status) ? WEXITSTATUS(status) : -1);
+        Violation v;
+        v.prop = plan.prop;
+        v.rule = rule;
+        v.detail = err.substr(0, std::min<size_t>(err.size(), 1200));
+        std::replace(v.detail.begin(), v.detail.end(), '\t', ' ');
+        out.viol.push_back(v);
+    }
     return out;
 }
 
